@@ -582,4 +582,47 @@ theorem logInv_ops (ops : List Op) (s : State) (h : LogInv s) (hok : OpsOk s ops
       exact ih _ (commit_kv s t h ht).2.1 hrest
     | reopen o => exact ih _ (logInv_reopen s h o) hok
 
+/-! ### the log of a history -/
+
+/-- the records a history leaves in the files, in order: each committed transaction's records, the last
+one of each carrying the commit mark -/
+def logOf : List Op → List Rec
+  | [] => []
+  | .commit t :: rest => marked t ++ logOf rest
+  | .reopen _ :: rest => logOf rest
+
+/-- `Commit` of a key/value transaction appends exactly its marked records to the log -/
+theorem commit_kv_log (s : State) (t : List Rec) (h : LogInv s) (ht : KVTx s.opt.seg t) :
+    (allRecs (commit s t).1.files).map (·.1) = (allRecs s.files).map (·.1) ++ marked t := by
+  obtain ⟨hne, tid, hr⟩ := ht
+  obtain ⟨hfine, _, _, ⟨extra, hex, hfiles, _⟩, _⟩ := commitLoop_kv t tid s h.shape hr
+  have hds : ∀ r ∈ t, r.ds = dsKV := fun r hr' => (hr r hr').1
+  have hemp : t.isEmpty = false := by cases t with | nil => exact absurd rfl hne | cons _ _ => rfl
+  have hcommit : commit s t = ((commitLoop s t).1, .ok ()) := by
+    unfold commit
+    simp only [hemp, Bool.false_eq_true, if_false]
+    rw [show commitLoop s t = ((commitLoop s t).1, (commitLoop s t).2) from rfl]
+    simp only [hfine, Bool.not_true, Bool.false_eq_true, if_false]
+    rw [buildIdxes_kv_id t _ hds]
+    simp
+  rw [hcommit]
+  show (allRecs (commitLoop s t).1.files).map (·.1) = _
+  rw [hfiles, List.map_append, hex]
+
+theorem log_of_ops (ops : List Op) (s : State) (h : LogInv s) (hok : OpsOk s ops) :
+    (allRecs (ops.foldl stepOp s).files).map (·.1) = (allRecs s.files).map (·.1) ++ logOf ops := by
+  induction ops generalizing s with
+  | nil => simp [logOf]
+  | cons op rest ih =>
+    cases op with
+    | commit t =>
+      obtain ⟨ht, hrest⟩ := hok
+      have := ih _ (commit_kv s t h ht).2.1 hrest
+      simp only [List.foldl_cons, stepOp, logOf]
+      rw [this, commit_kv_log s t h ht, List.append_assoc]
+    | reopen o =>
+      have := ih _ (logInv_reopen s h o) hok
+      simp only [List.foldl_cons, stepOp, logOf]
+      rw [this, (open_rebuilds s h o).2.2.1]
+
 end NutsProofs.Reopen
